@@ -29,6 +29,25 @@ def _cmp_parts(c):
     return at.func, at.args[0], at.args[1]
 
 
+def _pure(r):
+    """The value is a stored quantity itself (an attribute, an element of a list of attributes, a range element or a default
+    constant, possibly through float()), with no arithmetic applied on the way."""
+    if not isinstance(r, Rat):
+        return False
+    if r.is_const():
+        return True
+    at = r.as_atom()
+    if at is None:
+        return False
+    if at.func.startswith("$") or at.func.startswith("attr:") or at.func.startswith("elem"):
+        return True
+    if at.func in ("float", "call:float", "getitem", "map", "nparray", "pylist") and at.args:
+        return _pure(at.args[0])
+    if at.func == "ifexp":
+        return _pure(at.args[1]) and _pure(at.args[2])
+    return False
+
+
 def check_ranges(ctx, ev):
     prog = ctx.prog
     site = "verif.data.Data.__init__"
@@ -60,15 +79,19 @@ def check_ranges(ctx, ev):
                 rngs = [r for r in ("lat_range", "lon_range", "elev_range") if "$" + r in bound.key()]
                 idxs = [g.args[1].const_value() for g in q.atoms(bound, "getitem")
                         if isinstance(g.args[0], Rat) and g.args[0].key() in ("$lat_range", "$lon_range", "$elev_range") and isinstance(g.args[1], Rat)]
-                found[(attr, side)] = {"op": op, "ranges": rngs, "idx": idxs, "node": e["node"]}
+                value = a if a_attr else b
+                found[(attr, side)] = {"op": op, "ranges": rngs, "idx": idxs, "node": e["node"], "pure": _pure(value) and _pure(bound),
+                                       "value": str(value)[:120], "bound": str(bound)[:80]}
     for attr, rng in (("lat", "lat_range"), ("lon", "lon_range"), ("elev", "elev_range")):
         for side, want_idx in (("lower", 0), ("upper", 1)):
             f = found.get((attr, side))
-            ok = f is not None and f["op"] == "cmp_le" and f["ranges"] == [rng] and f["idx"] == [want_idx]
+            ok = f is not None and f["op"] == "cmp_le" and f["ranges"] == [rng] and f["idx"] == [want_idx] and f["pure"]
             ctx.ob("C03.1", site, ok, "Location.%s %s element %d of %s (inclusive)" % (attr, ">=" if side == "lower" else "<=", want_idx, rng),
                    loc=prog.loc(m, f["node"]) if f else None,
                    msg="the %s bound of the %s filter is %s" % (side, attr, "missing" if f is None else
-                                                                   "%s against element %s of %s" % ("strict" if f["op"] == "cmp_lt" else "inclusive", f["idx"], f["ranges"])),
+                                                                   "%s against element %s of %s%s" % ("strict" if f["op"] == "cmp_lt" else "inclusive", f["idx"], f["ranges"],
+                                                                                                       "" if f["pure"] else "; compared are %s and %s, not the station's own %s and the given limit"
+                                                                                                       % (f["value"], f["bound"], attr))),
                    sample={"rule": "C03.1", "attr": attr, "side": side, "found": {k: v for k, v in (f or {}).items() if k != "node"}})
 
 
